@@ -138,6 +138,9 @@ def check(ctx):
             # a query (or header) property may carry the name of a path variable: still one path parameter per variable
             "res /items/{ 'id int }?{ 'id str, 'limit int } on get -> { 'name str };\nres /users/{ 'uid int }?{ 'q str } on get { 'uid str } -> { 'name str };\n",
             "res /a/{ 'id num }/b/{ 'k num }?{ 'id str, 'k int } on get, put { 'id bool } -> <headers={ 'k str }, {}>;\n",
+            # chains of aliases of named references: every $ref resolves whatever the length of the chain
+            "let @c = { 'n num };\nlet @b = @c;\nlet @a = @b;\nlet @z = @a;\nres /chain on get -> <@a> :: <status=404, [@z]> :: <status=500, @b>;\n",
+            "let @c = { 'n [@a] };\nlet @b = @c;\nlet @a = @b;\nres /loop on get -> <@a>;\n",
             # user-chosen map keys spelling "$ref": their values are objects, not references
             "let @a = { '$ref str, 'n [@a] };\nres /x on get : { '$ref int } -> <headers={ '$ref str }, media=\"$ref\", @a>;\n",
         ]
